@@ -23,6 +23,7 @@ ASSUMPTIONS = [
     "rows tagged 'std' (parts 102, 103, 207, 209, 301, 303, 304) are transcribed from the standard and are an independent oracle; rows tagged 'pinned' (parts 202, 205, 206 and three send-twice flags) are a regression oracle only",
     "the reference encoder implements the address-byte / selector-bit / instance-byte / event-scheme layouts of IEC 62386-102 7.2 and -103 7.2 directly on integers",
 ]
+CHAIN_STRIDE = {'quick': 6, 'thorough': 6}      # every k-th shard is re-run in chains inside one process (non-initial process states)
 BOUNDS = {"quick": "all rows, all destinations, instance bytes at kind boundaries (27 of 195), 2-byte specials on a 20x20 grid, events on boundary fields",
           "thorough": "all rows x full argument product (195 instance bytes, 256x256 two-byte parameters, all event fields and data)"}
 
